@@ -71,12 +71,12 @@ static void work_fn(void *c)
 		max_running = running_now;
 	if (!P_nullpool)
 		sx_assert(running_now <= maxthr, "C12.more-work-running-than-max_threads");
-	sx_sched();	/* the work takes a while: others may run */
-	if (P_cont && w->id == 0 && next_to_submit < nW) {
-		/* a continuation submitted from inside a worker */
+	if (P_cont && w->id == 0 && next_to_submit < nW && pool_alive) {
+		/* a continuation submitted from inside a worker (the application still holds the pool) */
 		sx_cover("work.continuation-from-worker");
 		submit(&W[next_to_submit++], 1);
 	}
+	sx_sched();	/* the work takes a while: others may run */
 	running_now--;
 	w->work_returned = 1;
 }
@@ -247,8 +247,11 @@ void sx_main(void)
 		sx_assert(iv_work_pool_create(pool) == 0, "C12.pool-create-failed");
 		pool_alive = 1;
 	}
-	for (i = 0; i < burst && next_to_submit < nW; i++)
+	for (i = 0; i < burst && next_to_submit < nW; i++) {
+		if (i > 0 && sx_opt("gap", 0))
+			sx_sched();	/* the owner is busy between two submissions: workers may run meanwhile */
 		submit(&W[next_to_submit++], 0);
+	}
 	if (P_put == 1)
 		maybe_put();
 	if (P_late || P_put == 3) {
